@@ -51,6 +51,39 @@ PROPS = {
         trusted_base=LOGCORE,
         assumptions=["TieFree (stated in the property)", "fetch order inside a batch is the Go scheduler's, recorded and replayed"],
     ),
+    "C03": dict(
+        module="OrbitModel.Properties.C03",
+        theorems=["Orbit.C03.visible_entries_are_authored_by_writers", "Orbit.C03.forged_or_unauthorised_never_visible",
+                  "Orbit.C03.local_write_by_non_writer_fails", "Orbit.C03.pinned_tree_accepts_copied_id"],
+        families=[("forge", 150, 4000, 10)],
+        corr_fields={"values", "heads", "idx", "len", "ack", "sync"},
+        nontrivial=lambda lines: sum(1 for l in lines if l.startswith("forged ") and " err" not in l) >= 1 and sum(1 for l in lines if l.startswith("op inject")) >= 1,
+        rule="write lists of every shape (explicit ids, wildcard, creator only, attacker included) x non-writer local writes x forged-author recipes (own identity, copied writer id, copied identity block, foreign key, 13 single-field tamperings, other database, wrong address) built with the real entry package and a second signer, delivered by manual sync / pubsub / direct channel, alone, mixed with valid heads at either end, or hidden behind a colluding writer's entry; the flags the model uses (signature valid, address valid, identity block genuine) are measured on the real objects; every listed entry on every replica must be authored by a writer; non-trivial = at least one forged entry injected",
+        trusted_base=["crypto: signatures unforgeable, identity block genuine iff it is the writer's (measured by byte equality in the harness)"],
+        assumptions=[],
+    ),
+    "C04": dict(
+        module="OrbitModel.Properties.C04",
+        theorems=["Orbit.C04.only_verified_same_database_entries_merged", "Orbit.C04.held_entries_unaffected",
+                  "Orbit.C04.batch_merges_only_verified", "Orbit.C04.misaddressed_head_refused",
+                  "Orbit.C04.listed_entries_are_members", "Orbit.C04.pinned_foreign_entry_becomes_head"],
+        families=[("forge", 150, 4000, 10)],
+        corr_fields={"values", "heads", "idx", "len", "sync"},
+        nontrivial=lambda lines: sum(1 for l in lines if l.startswith("forged ") and " err" not in l) >= 1 and sum(1 for l in lines if l.startswith("op inject")) >= 1,
+        rule="same family as C03: every single-field mutation of the wire form (payload, clock time, clock id, next, refs, key, signature, identity id / key / signatures, log id, claimed hash) and entries of another database, as announced head and as ancestor; every listed entry must verify, be well addressed and belong to the database; Len() must equal the listing; earlier listings must survive",
+        trusted_base=["content addressing: a block fetched by address has that address (HashDet)"],
+        assumptions=[],
+    ),
+    "C05": dict(
+        module="OrbitModel.Properties.C05",
+        theorems=["Orbit.C05.acknowledged_survive_any_crash", "Orbit.C05.cached_heads_cover_the_log"],
+        families=[("routes", 100, 3000, 14), ("kv", 40, 1000, 12)],
+        corr_fields={"values", "heads", "idx", "len", "local", "remote", "load"},
+        nontrivial=lambda lines: any(l.startswith("restarted ") for l in lines) and sum(1 for l in lines if l.startswith("entry ")) >= 2,
+        rule="histories of writes and replications by every route with instance restarts (close everything, new instance on the same keystore and cache, Load(-1)) at PRNG-chosen moments; after every step the cached heads must cover the whole log (the crash-prefix invariant) and after every restart the identity must be the same and the recovered state must equal the pre-restart state; non-trivial = at least one restart with >= 2 entries",
+        trusted_base=["each persistence effect is durable and atomic once its call returns (the property's assumption)", "in-memory datastores owned by the harness stand for leveldb directories"],
+        assumptions=[],
+    ),
     "C06": dict(
         module="OrbitModel.Properties.C06",
         theorems=["Orbit.C06.index_tracks_replay", "Orbit.C06.index_step", "Orbit.C06.seen_is_listed_before",
@@ -96,6 +129,16 @@ PROPS = {
         trusted_base=["set-level network model (Model/Net.lean); scripted pubsub/direct channel/bitswap replace libp2p (runtime not modelled)"],
         assumptions=["blocks held by a connected peer are fetchable; no rejected entry, no cancelled request (boundary with C10/C11)"],
     ),
+    "C12": dict(
+        module="OrbitModel.Properties.C12",
+        theorems=[],
+        families=[("garbage", 120, 4000, 10)],
+        corr_fields={"values", "heads", "idx", "len"},
+        nontrivial=lambda lines: sum(1 for l in lines if l.startswith("op garbage") and "kind=valid" not in l) >= 2,
+        rule="structurally enumerated malformed exchange-heads messages (null / empty / ill-typed / partial heads, every subset of missing identity/clock/hash/next/refs/key/sig fields, truncations and bit flips of real messages, random bytes, deep nesting, wrong address) on the pubsub topic and the direct channel, interleaved with writes and valid messages; the process must survive (a panic is attributed to the running scenario), state must stay explained by valid entries, later valid messages must be handled; non-trivial = >= 2 malformed messages",
+        trusted_base=["the bytes -> structure step of encoding/json is observed, not modelled"],
+        assumptions=[],
+    ),
     "C19": dict(
         module="OrbitModel.Properties.C19",
         theorems=["Orbit.C19.never_regresses", "Orbit.C19.progress_le_max", "Orbit.C19.at_rest_equals_len",
@@ -113,6 +156,18 @@ _TIE = ("Lean 4 theorems about a hand-written model + correspondence harness: th
         "PRNG histories and the compiled Lean driver replays every operation through the model and evaluates the "
         "property's L1 predicate on the implementation's own observations")
 MANIFEST_TEXT = {
+    "C03": dict(
+        text="Kernel-checked theorem with NO order or honesty hypothesis on incoming content: after any sequence of allowed/denied local appends and joins of arbitrary fetched logs, every listed entry names a writer of the list (or the list is the wildcard), is signed with that writer's key under a genuine identity block, and belongs to the database; a denied local write changes nothing visible. The pinned CanAppend (id only) is refuted by a decide-checked witness that was replayed on the real code before the fix: commit adding VerifyEntryAuthor. The harness builds forged entries with the real entry package and a second signer, measures their flags on the real objects, delivers them by every route, and evaluates the membership predicate on every observation.",
+        note="Trusted: Lean kernel + standard axioms; unforgeability of secp256k1 signatures and 'identity block genuine' are represented by measured flags; the hand-written model of Join/CanAppend/Sync validated by correspondence; the replicator's log-id filter is a hypothesis of the reachability relation (its code is exercised by the harness).",
+        technique="Lean 4 proof (membership invariant over adversarial reachability) with differential correspondence on forged entries"),
+    "C04": dict(
+        text="Kernel-checked theorems: whatever log is handed to Join, everything it adds passed the access check, verifies and carries this database's id, and nothing held is lost; the same for a whole batch with rejected logs; a wrongly addressed head aborts Sync; every listed entry is a member. The dependency's Join still merges foreign heads (decide-checked witness); the fix: commit in the replicator keeps such entries away from Join, and the harness checks on the real code that no tampered / foreign entry is ever listed and that Len() matches the listing.",
+        note="Trusted: Lean kernel + standard axioms; content addressing (HashDet); the mapping from wire-form mutations to the model's flags is measured by the harness with the real Verify / re-encode.",
+        technique="Lean 4 proof (Join adds only acceptable entries; monotonicity) with differential correspondence on tampered entries"),
+    "C05": dict(
+        text="Kernel-checked theorem over explicit persistence-effect traces: for every valid history and EVERY prefix of its effect trace (every crash point), recovery returns every acknowledged write and every entry reported as replicated, only entries whose block was written, an ancestry-closed set, listed exactly as the pre-crash listing restricted to it; mechanism: the cached heads cover the log at every reachable store state. The harness restarts real instances over the same keystore and cache at random moments, compares the recovered state and identity, and evaluates 'cached heads cover the log' after every step of every scenario (the invariant from which every crash point follows).",
+        note="Partial where the truth is in the runtime: durability/atomicity of each datastore call is the property's own assumption; leveldb is replaced by in-memory datastores; crash points are covered by the theorem plus the per-step invariant check rather than by killing processes.",
+        technique="Lean 4 proof (effect-trace prefixes, durable-log invariant) with differential correspondence including restarts"),
     "C02": dict(
         text="Kernel-checked theorem over a set-level network model: for any prefix of writes, sends, deliveries (any message, any number of times, any order), restarts and faults, followed by a write-free final phase in which every ordered pair exchanges heads, every replica holds every acknowledged write; a replica never loses an entry even across restart. Unbounded in replicas/steps/messages. The real stores are driven over scripted pubsub/direct-channel/block transports through the same kinds of schedules (cuts, heals, lost/duplicated/reordered announcements, restarts, final exchange round) and the convergence predicate is evaluated on their observations; every step is also replayed through the store model.",
         note="Partial where the truth is in the runtime: real libp2p pubsub/bitswap timing is replaced by scripted transports. The per-action guarantees (Valid: cached heads cover the log; a fully accepted message adds the ancestry of its heads) are proved at the store level / checked by correspondence; rejected entries and cancellations are C10/C11.",
